@@ -12,30 +12,40 @@ import EmitModel.Thm.C11
 namespace EmitModel.FilePipe
 open EmitModel EmitModel.FileSet
 
-/-- Every composite step is a step of the channel (with the outcome the worker produced). -/
+theorem step_live {cfg : Cfg} {s s' : St} {l : Label} (h : step cfg s l = some s') :
+    s.crashed = false ∧ stepLive cfg s l = some s' := by
+  unfold step at h
+  cases hc : s.crashed with
+  | true => simp [hc] at h
+  | false => simpa [hc] using h
+
+/-- Every composite step is a step of the channel (with the outcome the worker produced) — or the crash that ends the
+    execution, which leaves the channel as it is. -/
 theorem step_proj (cfg : Cfg) (s s' : St) (l : Label) (h : step cfg s l = some s') :
-    ∃ bl, chanLabel cfg s l = some bl ∧ Batcher.step cfg.ch s.ch bl = some s'.ch := by
+    s'.ch = s.ch ∨ ∃ bl, Batcher.step cfg.ch s.ch bl = some s'.ch := by
+  have hl := step_live h
+  clear h
+  obtain ⟨hlive, h⟩ := hl
   cases l with
   | chan bl =>
-    refine ⟨bl, rfl, ?_⟩
+    refine .inr ⟨bl, ?_⟩
     cases bl
-    case rxOutcome o => simp [step] at h
+    case rxOutcome o => simp [stepLive] at h
     case rxBegin =>
-      simp only [step] at h
+      simp only [stepLive] at h
       cases hb : Batcher.step cfg.ch s.ch .rxBegin with
       | none => simp [hb] at h
       | some ch' =>
         simp only [hb] at h
         split at h <;> (cases h; rfl)
     all_goals
-      simp only [step, Option.map_eq_some_iff] at h
+      simp only [stepLive, Option.map_eq_some_iff] at h
       obtain ⟨ch', hc, rfl⟩ := h
       exact hc
   | process now id =>
-    simp only [step] at h
+    simp only [stepLive] at h
     split at h
     · rename_i orig c ws b hrx hcur
-      simp only [chanLabel, hrx, hcur]
       cases hob : onBatch cfg.file cfg.plan now id b s.fs with
       | mk r fs' =>
         simp only [hob] at h
@@ -43,17 +53,20 @@ theorem step_proj (cfg : Cfg) (s s' : St) (l : Label) (h : step cfg s l = some s
         | ok =>
           simp only [Option.map_eq_some_iff] at h
           obtain ⟨ch', hc, rfl⟩ := h
-          exact ⟨_, rfl, hc⟩
+          exact .inr ⟨_, hc⟩
         | retry b' =>
           simp only [Option.map_eq_some_iff] at h
           obtain ⟨ch', hc, rfl⟩ := h
-          refine ⟨_, rfl, ?_⟩
+          refine .inr ⟨.rxOutcome (.failRetry (remainder c b')), ?_⟩
           rw [hc]; split <;> rfl
         | noRetry =>
           simp only [Option.map_eq_some_iff] at h
           obtain ⟨ch', hc, rfl⟩ := h
-          exact ⟨_, rfl, hc⟩
-        | crashed => simp at h
+          exact .inr ⟨_, hc⟩
+        | crashed =>
+          simp only [Option.some.injEq] at h
+          subst h
+          exact .inl rfl
     · simp at h
 
 theorem reachable_proj (cfg : Cfg) (fs0 : FileSet.St) (s : St) (h : Reachable cfg fs0 s) :
@@ -71,8 +84,9 @@ theorem reachable_proj (cfg : Cfg) (fs0 : FileSet.St) (s : St) (h : Reachable cf
     | none => simp [hs] at h
     | some s1 =>
       simp only [hs] at h
-      obtain ⟨bl, _, hb⟩ := step_proj cfg s0 s1 l hs
-      exact ih s1 s (h0.step hb) h
+      rcases step_proj cfg s0 s1 l hs with heq | ⟨bl, hb⟩
+      · exact ih s1 s (by rw [heq]; exact h0) h
+      · exact ih s1 s (h0.step hb) h
 
 structure PInv (cfg : Cfg) (E : List Nat → Prop) (c : Nat) (s : St) : Prop where
   fsInv : FileSet.Inv cfg.file E c s.fs
@@ -128,14 +142,17 @@ theorem retry_facts {cfg : Config} {E : List Nat → Prop} {c : Nat} (hsep : cfg
 theorem pinv_step {cfg : Cfg} {E : List Nat → Prop} {c : Nat} (hsep : cfg.file.sep = [c]) (hwf : WfEvents E c)
     (hev : ∀ x, E (cfg.ev x)) (s s' : St) (l : Label) (hi : PInv cfg E c s) (h : step cfg s l = some s') :
     PInv cfg E c s' := by
+  have hl := step_live h
+  clear h
+  obtain ⟨hlive, h⟩ := hl
   obtain ⟨i1, i2, i3, i4⟩ := hi
   cases l with
   | chan bl =>
     by_cases hob : ∃ o, bl = .rxOutcome o
-    · obtain ⟨o, rfl⟩ := hob; simp [step] at h
+    · obtain ⟨o, rfl⟩ := hob; simp [stepLive] at h
     by_cases hbg : bl = .rxBegin
     · subst hbg
-      simp only [step] at h
+      simp only [stepLive] at h
       cases hb : Batcher.step cfg.ch s.ch .rxBegin with
       | none => simp [hb] at h
       | some ch' =>
@@ -171,7 +188,7 @@ theorem pinv_step {cfg : Cfg} {E : List Nat → Prop} {c : Nat} (hsep : cfg.file
         case rxOutcome o => exact absurd ⟨o, rfl⟩ hob
         case rxBegin => exact absurd rfl hbg
         all_goals
-          simp only [step, Option.map_eq_some_iff] at h
+          simp only [stepLive, Option.map_eq_some_iff] at h
           obtain ⟨ch', hc, rfl⟩ := h
           exact ⟨ch', hc, rfl⟩
       obtain ⟨ch', hc, rfl⟩ := hgen
@@ -183,7 +200,7 @@ theorem pinv_step {cfg : Cfg} {E : List Nat → Prop} {c : Nat} (hsep : cfg.file
       · rw [f2] at hh; cases hh
       · rw [f2] at hh; exact i2 orig cu hh
   | process now id =>
-    simp only [step] at h
+    simp only [stepLive] at h
     split at h
     · rename_i orig cu ws b hrx hcur
       obtain ⟨b0, done, hb0, hwfb, hrest, horig, hbegan, hdone⟩ := i2 orig cu (by rw [hrx]; rfl)
@@ -218,7 +235,17 @@ theorem pinv_step {cfg : Cfg} {E : List Nat → Prop} {c : Nat} (hsep : cfg.file
         simp only at k1 k2 hinv' hokd hdone' hfail
         simp only [hob] at h
         cases r with
-        | crashed => simp at h
+        | crashed =>
+          -- the process is gone; what was kept is still kept in what the crash left
+          simp only [Option.some.injEq] at h
+          subst h
+          refine ⟨hinv', ?_, i3, hokd⟩
+          intro o cu' hh'
+          simp only at hh'
+          rw [hrx] at hh'
+          simp only [Batcher.Rx.held, Option.some.injEq, Prod.mk.injEq] at hh'
+          obtain ⟨rfl, rfl⟩ := hh'
+          exact ⟨b, done, hcur, hwfb, hrest, horig, Nat.le_trans hbegan k1, hdone'⟩
         | noRetry =>
           simp only [Batcher.step, Batcher.rxOutcome, hrx, Batcher.conclude, Option.map_some, Option.some.injEq] at h
           subst h
